@@ -12,7 +12,10 @@ Import ListNotations.
 Open Scope Z_scope.
 
 Inductive transport := Pipe | Tcp.
-Inductive rkind := RErr | RTimeout | RHandlerErr | RPanic.
+(* how the receive loop is made to end: read error, read timeout, the handler returns an error, the handler panics
+   with an ordinary value / with nil (recover() answers nil under the module's go 1.19 semantics) / with an error
+   value / with a value of a user type, the handler calls runtime.Goexit.  All of them run the deferred quit. *)
+Inductive rkind := RErr | RTimeout | RHandlerErr | RPanic | RPanicNil | RPanicErr | RPanicCustom | RGoexit.
 Inductive wkind := WErr | WTimeout.
 
 Record sess := mkS {
@@ -98,7 +101,7 @@ Definition sess_step (s : sess) (a : act) : option (sess * bool) :=
         else Some (s, false)                        (* nobody reads any more: the handler is not called after the exit *)
       else None
   | RecvFault k =>
-      if match k with RHandlerErr | RPanic => peer_open s | _ => true end
+      if match k with RErr | RTimeout => true | _ => peer_open s end
       then Some (set_clean (set_rcause s true) false, false) else None
   | WriteFault _ => Some (set_clean (set_wfail s true) false, false)
   | SendStep =>                                     (* one iteration of loopSend *)
